@@ -196,6 +196,10 @@ def check_format_input_orientation(inp, init_format=False):
         inp = Rotation.from_quat(inpQ)
     else:
         inpQ = inp.as_quat()
+        if inpQ.size == 0:
+            raise MagpylibBadUserInput(
+                "Input parameter `orientation` must not be an empty `Rotation` object."
+            )
     # return
     if init_format:
         return np.reshape(inpQ, (-1, 4))
@@ -347,6 +351,11 @@ def check_format_input_vector(
         ),
     )
     if isinstance(reshape, tuple):
+        if inp.size == 0:
+            raise MagpylibBadUserInput(
+                f"Input parameter `{sig_name}` must be {sig_type}.\n"
+                f"Instead received array_like with shape {inp.shape}."
+            )
         return np.reshape(inp, reshape)
 
     if forbid_negative0:
